@@ -639,6 +639,77 @@ func init() {
 	}
 	ext["(*sync.Pool).Put"] = func(fr *frame, args []value) value { return nil }
 
+	// sync.Map: an association list per receiver (keys compared as interface values; a key
+	// comparison that is not concrete is decided by the solver through truth())
+	type smEntry struct{ k, v iface }
+	type smState struct{ ents []smEntry }
+	getSM := func(i *interpreter, p value) *smState {
+		key := p.(*value)
+		if m, ok := i.side[key]; ok {
+			return m.(*smState)
+		}
+		m := &smState{}
+		i.side[key] = m
+		return m
+	}
+	smFind := func(fr *frame, m *smState, k iface) int {
+		for n, e := range m.ents {
+			if fr.i.truth(svOrConst(fr.i.equalsT(nil, e.k, k), types.Bool)) {
+				return n
+			}
+		}
+		return -1
+	}
+	ext["(*sync.Map).Load"] = func(fr *frame, args []value) value {
+		m := getSM(fr.i, args[0])
+		if n := smFind(fr, m, args[1].(iface)); n >= 0 {
+			return tuple{m.ents[n].v, true}
+		}
+		return tuple{iface{}, false}
+	}
+	ext["(*sync.Map).Store"] = func(fr *frame, args []value) value {
+		m := getSM(fr.i, args[0])
+		if n := smFind(fr, m, args[1].(iface)); n >= 0 {
+			m.ents[n].v = args[2].(iface)
+		} else {
+			m.ents = append(m.ents, smEntry{args[1].(iface), args[2].(iface)})
+		}
+		return nil
+	}
+	ext["(*sync.Map).LoadOrStore"] = func(fr *frame, args []value) value {
+		m := getSM(fr.i, args[0])
+		if n := smFind(fr, m, args[1].(iface)); n >= 0 {
+			return tuple{m.ents[n].v, true}
+		}
+		m.ents = append(m.ents, smEntry{args[1].(iface), args[2].(iface)})
+		return tuple{args[2].(iface), false}
+	}
+	ext["(*sync.Map).LoadAndDelete"] = func(fr *frame, args []value) value {
+		m := getSM(fr.i, args[0])
+		if n := smFind(fr, m, args[1].(iface)); n >= 0 {
+			v := m.ents[n].v
+			m.ents = append(m.ents[:n:n], m.ents[n+1:]...)
+			return tuple{v, true}
+		}
+		return tuple{iface{}, false}
+	}
+	ext["(*sync.Map).Delete"] = func(fr *frame, args []value) value {
+		m := getSM(fr.i, args[0])
+		if n := smFind(fr, m, args[1].(iface)); n >= 0 {
+			m.ents = append(m.ents[:n:n], m.ents[n+1:]...)
+		}
+		return nil
+	}
+	ext["(*sync.Map).Range"] = func(fr *frame, args []value) value {
+		m := getSM(fr.i, args[0])
+		for _, e := range append([]smEntry(nil), m.ents...) {
+			if !fr.i.truth(call(fr.i, fr, token.NoPos, args[1], []value{e.k, e.v})) {
+				break
+			}
+		}
+		return nil
+	}
+
 	// errors
 	ext["errors.Is"] = func(fr *frame, args []value) value {
 		return fr.i.errorsIs(fr, args[0].(iface), args[1].(iface))
